@@ -179,11 +179,15 @@ func (c *compressor) decompressZstd(compressed []byte) (decompressed []byte, err
 		return nil, io.ErrUnexpectedEOF
 	}
 
-	r := bytes.NewReader(compressed)
-	zstdDecoder, err := zstd.NewReader(r)
+	// A nil reader keeps the decoder in stateless mode. Passing the input as a
+	// stream (zstd.NewReader(r)) would start stream goroutines that are never
+	// read or closed: they stay parked holding the decoder's block decoders
+	// (a leak per call) and can starve the DecodeAll below forever.
+	zstdDecoder, err := zstd.NewReader(nil)
 	if err != nil {
 		return nil, err
 	}
+	defer zstdDecoder.Close()
 
 	decompressed, err = zstdDecoder.DecodeAll(compressed, nil)
 	return decompressed, err
